@@ -16,36 +16,46 @@ namespace C12Tie
 open Generated.GoGenumValues Generated.GoGenumGen Genum GoLoop
 
 abbrev SMap := Go.KV String String
+/-- `parsableTraitTypes`: the types under which a constant text already is a key -/
+abbrev TMap := Go.KV String (List GType)
 
-/-- one instance: `none` = the error return; else the new map and the instance (marked when its text was already
-recorded for its own value) -/
-def vpStep (m : SMap) (x : GTraitInstance) : Option (SMap × GTraitInstance) :=
+/-- `types.Identical(types.Default(seen), types.Default(ty))` -/
+def sameDefault (ty : GType) (s : GType) : Bool := s.defaultTypeId == ty.defaultTypeId
+/-- `parsableTraitTypes[text]` (nil when absent) -/
+def tmGet (tm : TMap) (k : String) : List GType := (Go.kvGet tm k).getD default
+def markOf (x : GTraitInstance) : GTraitInstance := { x with repeatsParseKey := true }
+
+/-- one instance of a trait of type `ty`: `none` = the error return; else the new maps and the instance (marked when
+its text already is a key under an identical default type) -/
+def vpStep (ty : GType) (m : SMap) (tm : TMap) (x : GTraitInstance) : Option (SMap × TMap × GTraitInstance) :=
   match Go.kvGet m x.value with
   | some o =>
     if o != x.OwningValue.Name then none
-    else some (Go.kvSet m x.value x.OwningValue.Name, { x with repeatsParseKey := true })
-  | none => some (Go.kvSet m x.value x.OwningValue.Name, x)
+    else some (Go.kvSet m x.value x.OwningValue.Name, Go.kvSet tm x.value (tmGet tm x.value ++ [ty]),
+      if (tmGet tm x.value).any (sameDefault ty) then markOf x else x)
+  | none => some (Go.kvSet m x.value x.OwningValue.Name, Go.kvSet tm x.value (tmGet tm x.value ++ [ty]), x)
 
-/-- the instances of one trait: (map, instances as they are left behind, no error) -/
-def vpInsts (m : SMap) : List GTraitInstance → SMap × List GTraitInstance × Bool
-  | [] => (m, [], true)
+/-- the instances of one trait: (maps, instances as they are left behind, no error) -/
+def vpInsts (ty : GType) (m : SMap) (tm : TMap) : List GTraitInstance → SMap × TMap × List GTraitInstance × Bool
+  | [] => (m, tm, [], true)
   | x :: xs =>
-    match vpStep m x with
-    | none => (m, x :: xs, false)
-    | some (m', x') => let r := vpInsts m' xs; (r.1, x' :: r.2.1, r.2.2)
+    match vpStep ty m tm x with
+    | none => (m, tm, x :: xs, false)
+    | some (m', tm', x') => let r := vpInsts ty m' tm' xs; (r.1, r.2.1, x' :: r.2.2.1, r.2.2.2)
 
-/-- the traits: (descriptors as they are left behind, map, no error) -/
-def vpDescs (m : SMap) : List GTraitDesc → List GTraitDesc × SMap × Bool
-  | [] => ([], m, true)
+/-- the traits: (descriptors as they are left behind, maps, no error) -/
+def vpDescs (m : SMap) (tm : TMap) : List GTraitDesc → List GTraitDesc × SMap × TMap × Bool
+  | [] => ([], m, tm, true)
   | t :: ts =>
     if t.Parsable then
-      let r := vpInsts m t.Traits
-      if r.2.2 then let q := vpDescs r.1 ts; ({ t with Traits := r.2.1 } :: q.1, q.2.1, q.2.2)
-      else ({ t with Traits := r.2.1 } :: ts, r.1, false)
-    else let q := vpDescs m ts; (t :: q.1, q.2.1, q.2.2)
+      let r := vpInsts t.«Type» m tm t.Traits
+      if r.2.2.2 then let q := vpDescs r.1 r.2.1 ts; ({ t with Traits := r.2.2.1 } :: q.1, q.2.1, q.2.2.1, q.2.2.2)
+      else ({ t with Traits := r.2.2.1 } :: ts, r.1, r.2.1, false)
+    else let q := vpDescs m tm ts; (t :: q.1, q.2.1, q.2.2.1, q.2.2.2)
 
-abbrev InnerSt := Option (List GTraitDesc × Option String) × List GTraitDesc × SMap × GTraitDesc
-abbrev OuterSt := Option (List GTraitDesc × Option String) × List GTraitDesc × SMap
+abbrev MarkSt := List GTraitDesc × GTraitDesc
+abbrev InnerSt := Option (List GTraitDesc × Option String) × List GTraitDesc × SMap × TMap × GTraitDesc
+abbrev OuterSt := Option (List GTraitDesc × Option String) × List GTraitDesc × SMap × TMap
 
 theorem set_self {α : Type} (l : List α) (k : Nat) (x : α) (h : l[k]? = some x) : l.set k x = l := by
   induction l generalizing k with
@@ -55,160 +65,222 @@ theorem set_self {α : Type} (l : List α) (k : Nat) (x : α) (h : l[k]? = some 
     | zero => simp at h; simp [h]
     | succ k => simp at h; simp [ih k h]
 
+/-- the trait with its `i`-th instance marked -/
+def mkT (tr : GTraitDesc) (i : Nat) : GTraitDesc :=
+  { tr with Traits := tr.Traits.set i (markOf (tr.Traits.getD i default)) }
+
+theorem mkT_idem (tr : GTraitDesc) (i : Nat) : mkT (mkT tr i) i = mkT tr i := by
+  unfold mkT
+  simp only [List.set_set]
+  by_cases hi : i < tr.Traits.length
+  · simp [List.getD_eq_getElem?_getD, hi, markOf]
+  · simp [List.getD_eq_getElem?_getD, hi, markOf, List.set_eq_of_length_le (Nat.le_of_not_lt hi)]
+
+/-- the loop over the types already recorded for a text: marks the instance when one is identical -/
+theorem vp_mark (body : GType → MarkSt → Go.M (ForInStep MarkSt)) (k3 i : Nat)
+    (h : ∀ (seen : GType) (traits : List GTraitDesc) (tr : GTraitDesc), i < tr.Traits.length → k3 < traits.length →
+      body seen (traits, tr) = pure (ForInStep.yield
+        (if sameDefault tr.«Type» seen then (traits.set k3 (mkT tr i), mkT tr i) else (traits, tr))))
+    (L : List GType) : ∀ (traits : List GTraitDesc) (tr : GTraitDesc), i < tr.Traits.length → k3 < traits.length →
+      forIn L ((traits, tr) : MarkSt) body = pure
+        (if L.any (sameDefault tr.«Type») then (traits.set k3 (mkT tr i), mkT tr i) else (traits, tr)) := by
+  induction L with
+  | nil => intro traits tr _ _; simp
+  | cons s L ih =>
+    intro traits tr hi hk
+    rw [List.forIn_cons, h s traits tr hi hk]
+    simp only [pure_bind, List.any_cons]
+    by_cases hc : sameDefault tr.«Type» s = true
+    · have hi' : i < (mkT tr i).Traits.length := by simp [mkT, hi]
+      have hk' : k3 < (traits.set k3 (mkT tr i)).length := by simp [hk]
+      have hty : (mkT tr i).«Type» = tr.«Type» := rfl
+      rw [if_pos hc, ih _ _ hi' hk', hty, mkT_idem, List.set_set]
+      simp [hc]
+    · rw [if_neg hc, ih _ _ hi hk]
+      simp [hc]
+
 theorem vp_inner (body : Nat → InnerSt → Go.M (ForInStep InnerSt)) (msg : String) (k3 : Nat)
-    (h : ∀ (i : Nat) (traits : List GTraitDesc) (m : SMap) (tr : GTraitDesc) (hi : i < tr.Traits.length),
-      k3 < traits.length → traits[k3]? = some tr → body i (none, traits, m, tr) = pure (match vpStep m tr.Traits[i] with
-        | none => ForInStep.done (some (traits, some msg), traits, m, tr)
-        | some (m', x') => ForInStep.yield (none, traits.set k3 { tr with Traits := tr.Traits.set i x' }, m',
+    (h : ∀ (i : Nat) (traits : List GTraitDesc) (m : SMap) (tm : TMap) (tr : GTraitDesc) (hi : i < tr.Traits.length),
+      k3 < traits.length → traits[k3]? = some tr → body i (none, traits, m, tm, tr) = pure (match vpStep tr.«Type» m tm tr.Traits[i] with
+        | none => ForInStep.done (some (traits, some msg), traits, m, tm, tr)
+        | some (m', tm', x') => ForInStep.yield (none, traits.set k3 { tr with Traits := tr.Traits.set i x' }, m', tm',
             { tr with Traits := tr.Traits.set i x' })))
     (suf : List GTraitInstance) :
-    ∀ (pre : List GTraitInstance) (m : SMap) (traits : List GTraitDesc) (tr : GTraitDesc),
+    ∀ (pre : List GTraitInstance) (m : SMap) (tm : TMap) (traits : List GTraitDesc) (tr : GTraitDesc),
       k3 < traits.length → tr.Traits = pre ++ suf → traits[k3]? = some tr →
-      forIn (List.range' pre.length suf.length) ((none, traits, m, tr) : InnerSt) body = pure (
-        let r := vpInsts m suf
-        let tr' : GTraitDesc := { tr with Traits := pre ++ r.2.1 }
-        ((if r.2.2 then none else some (traits.set k3 tr', some msg)), traits.set k3 tr', r.1, tr')) := by
+      forIn (List.range' pre.length suf.length) ((none, traits, m, tm, tr) : InnerSt) body = pure (
+        let r := vpInsts tr.«Type» m tm suf
+        let tr' : GTraitDesc := { tr with Traits := pre ++ r.2.2.1 }
+        ((if r.2.2.2 then none else some (traits.set k3 tr', some msg)), traits.set k3 tr', r.1, r.2.1, tr')) := by
   induction suf with
   | nil =>
-    intro pre m traits tr hk htr hinv
+    intro pre m tm traits tr hk htr hinv
     have e1 : ({ tr with Traits := pre ++ [] } : GTraitDesc) = tr := by
       cases tr; simp at htr; simp [htr]
     simp only [List.length_nil, List.range'_zero, List.forIn_nil, vpInsts, e1, set_self _ _ _ hinv]
     rfl
   | cons x suf ih =>
-    intro pre m traits tr hk htr hinv
+    intro pre m tm traits tr hk htr hinv
     have hi : pre.length < tr.Traits.length := by rw [htr]; simp
     have hx : tr.Traits[pre.length] = x := by simp [htr]
-    rw [List.length_cons, List.range'_succ, List.forIn_cons, h pre.length traits m tr hi hk hinv, hx]
-    obtain hs | ⟨p, hs⟩ : vpStep m x = none ∨ ∃ p, vpStep m x = some p := by
-      cases vpStep m x <;> simp
-    · have hv : vpInsts m (x :: suf) = (m, x :: suf, false) := by simp [vpInsts, hs]
+    rw [List.length_cons, List.range'_succ, List.forIn_cons, h pre.length traits m tm tr hi hk hinv, hx]
+    obtain hs | ⟨p, hs⟩ : vpStep tr.«Type» m tm x = none ∨ ∃ p, vpStep tr.«Type» m tm x = some p := by
+      cases vpStep tr.«Type» m tm x <;> simp
+    · have hv : vpInsts tr.«Type» m tm (x :: suf) = (m, tm, x :: suf, false) := by simp [vpInsts, hs]
       simp only [hs, hv]
       have e1 : ({ tr with Traits := pre ++ x :: suf } : GTraitDesc) = tr := by
         cases tr; simp at htr; simp [htr]
       simp only [pure_bind, e1, set_self _ _ _ hinv]
       rfl
-    · obtain ⟨m', x'⟩ := p
-      have hv : vpInsts m (x :: suf) = ((vpInsts m' suf).1, x' :: (vpInsts m' suf).2.1, (vpInsts m' suf).2.2) := by
+    · obtain ⟨m', tm', x'⟩ := p
+      have hv : vpInsts tr.«Type» m tm (x :: suf) = ((vpInsts tr.«Type» m' tm' suf).1, (vpInsts tr.«Type» m' tm' suf).2.1,
+          x' :: (vpInsts tr.«Type» m' tm' suf).2.2.1, (vpInsts tr.«Type» m' tm' suf).2.2.2) := by
         simp [vpInsts, hs]
       simp only [hs, hv, pure_bind]
       have hset : tr.Traits.set pre.length x' = (pre ++ [x']) ++ suf := by
         rw [htr]; simp [List.set_append]
-      have := ih (pre ++ [x']) m' (traits.set k3 { tr with Traits := tr.Traits.set pre.length x' })
+      have := ih (pre ++ [x']) m' tm' (traits.set k3 { tr with Traits := tr.Traits.set pre.length x' })
         { tr with Traits := tr.Traits.set pre.length x' } (by simpa using hk) hset (by simp [hk])
       simp only [List.length_append, List.length_singleton] at this
       rw [this]
       simp [List.set_set, List.append_assoc]
 
-
 theorem vp_outer (body : Nat → OuterSt → Go.M (ForInStep OuterSt)) (msg : String)
-    (h : ∀ (k : Nat) (traits : List GTraitDesc) (m : SMap) (hk : k < traits.length),
-      body k (none, traits, m) = pure (
+    (h : ∀ (k : Nat) (traits : List GTraitDesc) (m : SMap) (tm : TMap) (hk : k < traits.length),
+      body k (none, traits, m, tm) = pure (
         if traits[k].Parsable then
-          (if (vpInsts m traits[k].Traits).2.2 then
-            ForInStep.yield (none, traits.set k { traits[k] with Traits := (vpInsts m traits[k].Traits).2.1 },
-              (vpInsts m traits[k].Traits).1)
-          else ForInStep.done (some (traits.set k { traits[k] with Traits := (vpInsts m traits[k].Traits).2.1 }, some msg),
-              traits.set k { traits[k] with Traits := (vpInsts m traits[k].Traits).2.1 }, (vpInsts m traits[k].Traits).1))
-        else ForInStep.yield (none, traits, m)))
+          (if (vpInsts traits[k].«Type» m tm traits[k].Traits).2.2.2 then
+            ForInStep.yield (none, traits.set k { traits[k] with Traits := (vpInsts traits[k].«Type» m tm traits[k].Traits).2.2.1 },
+              (vpInsts traits[k].«Type» m tm traits[k].Traits).1, (vpInsts traits[k].«Type» m tm traits[k].Traits).2.1)
+          else ForInStep.done (some (traits.set k { traits[k] with Traits := (vpInsts traits[k].«Type» m tm traits[k].Traits).2.2.1 }, some msg),
+              traits.set k { traits[k] with Traits := (vpInsts traits[k].«Type» m tm traits[k].Traits).2.2.1 },
+              (vpInsts traits[k].«Type» m tm traits[k].Traits).1, (vpInsts traits[k].«Type» m tm traits[k].Traits).2.1))
+        else ForInStep.yield (none, traits, m, tm)))
     (suf : List GTraitDesc) :
-    ∀ (pre : List GTraitDesc) (m : SMap),
-      forIn (List.range' pre.length suf.length) ((none, pre ++ suf, m) : OuterSt) body = pure (
-        ((if (vpDescs m suf).2.2 then none else some (pre ++ (vpDescs m suf).1, some msg)),
-          pre ++ (vpDescs m suf).1, (vpDescs m suf).2.1)) := by
+    ∀ (pre : List GTraitDesc) (m : SMap) (tm : TMap),
+      forIn (List.range' pre.length suf.length) ((none, pre ++ suf, m, tm) : OuterSt) body = pure (
+        ((if (vpDescs m tm suf).2.2.2 then none else some (pre ++ (vpDescs m tm suf).1, some msg)),
+          pre ++ (vpDescs m tm suf).1, (vpDescs m tm suf).2.1, (vpDescs m tm suf).2.2.1)) := by
   induction suf with
-  | nil => intro pre m; simp [vpDescs]
+  | nil => intro pre m tm; simp [vpDescs]
   | cons t suf ih =>
-    intro pre m
+    intro pre m tm
     have hk : pre.length < (pre ++ t :: suf).length := by simp
     have ht : (pre ++ t :: suf)[pre.length] = t := by simp
-    rw [List.length_cons, List.range'_succ, List.forIn_cons, h pre.length (pre ++ t :: suf) m hk]
+    rw [List.length_cons, List.range'_succ, List.forIn_cons, h pre.length (pre ++ t :: suf) m tm hk]
     simp only [ht]
     by_cases hp : t.Parsable = true
-    · by_cases hok : (vpInsts m t.Traits).2.2 = true
-      · have hv : vpDescs m (t :: suf) = ({ t with Traits := (vpInsts m t.Traits).2.1 } :: (vpDescs (vpInsts m t.Traits).1 suf).1,
-            (vpDescs (vpInsts m t.Traits).1 suf).2.1, (vpDescs (vpInsts m t.Traits).1 suf).2.2) := by
+    · by_cases hok : (vpInsts t.«Type» m tm t.Traits).2.2.2 = true
+      · have hv : vpDescs m tm (t :: suf) = ({ t with Traits := (vpInsts t.«Type» m tm t.Traits).2.2.1 } ::
+              (vpDescs (vpInsts t.«Type» m tm t.Traits).1 (vpInsts t.«Type» m tm t.Traits).2.1 suf).1,
+            (vpDescs (vpInsts t.«Type» m tm t.Traits).1 (vpInsts t.«Type» m tm t.Traits).2.1 suf).2.1,
+            (vpDescs (vpInsts t.«Type» m tm t.Traits).1 (vpInsts t.«Type» m tm t.Traits).2.1 suf).2.2.1,
+            (vpDescs (vpInsts t.«Type» m tm t.Traits).1 (vpInsts t.«Type» m tm t.Traits).2.1 suf).2.2.2) := by
           simp [vpDescs, hp, hok]
-        have hset : (pre ++ t :: suf).set pre.length { t with Traits := (vpInsts m t.Traits).2.1 }
-            = (pre ++ [{ t with Traits := (vpInsts m t.Traits).2.1 }]) ++ suf := by simp [List.set_append]
-        have := ih (pre ++ [{ t with Traits := (vpInsts m t.Traits).2.1 }]) (vpInsts m t.Traits).1
+        have hset : (pre ++ t :: suf).set pre.length { t with Traits := (vpInsts t.«Type» m tm t.Traits).2.2.1 }
+            = (pre ++ [{ t with Traits := (vpInsts t.«Type» m tm t.Traits).2.2.1 }]) ++ suf := by simp [List.set_append]
+        have := ih (pre ++ [{ t with Traits := (vpInsts t.«Type» m tm t.Traits).2.2.1 }]) (vpInsts t.«Type» m tm t.Traits).1
+          (vpInsts t.«Type» m tm t.Traits).2.1
         simp only [List.length_append, List.length_singleton] at this
         rw [if_pos hp, if_pos hok]
         simp only [pure_bind, hset]
         rw [this]
         simp only [hv, List.append_assoc, List.singleton_append]
-      · have hv : vpDescs m (t :: suf) = ({ t with Traits := (vpInsts m t.Traits).2.1 } :: suf, (vpInsts m t.Traits).1, false) := by
+      · have hv : vpDescs m tm (t :: suf) = ({ t with Traits := (vpInsts t.«Type» m tm t.Traits).2.2.1 } :: suf,
+            (vpInsts t.«Type» m tm t.Traits).1, (vpInsts t.«Type» m tm t.Traits).2.1, false) := by
           simp [vpDescs, hp, hok]
-        have hset : (pre ++ t :: suf).set pre.length { t with Traits := (vpInsts m t.Traits).2.1 }
-            = pre ++ { t with Traits := (vpInsts m t.Traits).2.1 } :: suf := by simp [List.set_append]
+        have hset : (pre ++ t :: suf).set pre.length { t with Traits := (vpInsts t.«Type» m tm t.Traits).2.2.1 }
+            = pre ++ { t with Traits := (vpInsts t.«Type» m tm t.Traits).2.2.1 } :: suf := by simp [List.set_append]
         rw [if_pos hp, if_neg hok]
         simp only [pure_bind, hset, hv, Bool.false_eq_true, if_false]
-    · have hv : vpDescs m (t :: suf) = (t :: (vpDescs m suf).1, (vpDescs m suf).2.1, (vpDescs m suf).2.2) := by
+    · have hv : vpDescs m tm (t :: suf) = (t :: (vpDescs m tm suf).1, (vpDescs m tm suf).2.1, (vpDescs m tm suf).2.2.1,
+          (vpDescs m tm suf).2.2.2) := by
         simp [vpDescs, hp]
-      have := ih (pre ++ [t]) m
+      have := ih (pre ++ [t]) m tm
       simp only [List.length_append, List.length_singleton] at this
       rw [if_neg hp]
       simp only [pure_bind]
       rw [show pre ++ t :: suf = pre ++ [t] ++ suf by simp, this]
       simp only [hv, List.append_assoc, List.singleton_append]
 
-theorem vp_outer0 (body : Nat → OuterSt → Go.M (ForInStep OuterSt)) (msg : String) (gs : List GTraitDesc) (m : SMap)
-    (h : ∀ (k : Nat) (traits : List GTraitDesc) (m : SMap) (hk : k < traits.length),
-      body k (none, traits, m) = pure (
+theorem vp_outer0 (body : Nat → OuterSt → Go.M (ForInStep OuterSt)) (msg : String) (gs : List GTraitDesc) (m : SMap) (tm : TMap)
+    (h : ∀ (k : Nat) (traits : List GTraitDesc) (m : SMap) (tm : TMap) (hk : k < traits.length),
+      body k (none, traits, m, tm) = pure (
         if traits[k].Parsable then
-          (if (vpInsts m traits[k].Traits).2.2 then
-            ForInStep.yield (none, traits.set k { traits[k] with Traits := (vpInsts m traits[k].Traits).2.1 },
-              (vpInsts m traits[k].Traits).1)
-          else ForInStep.done (some (traits.set k { traits[k] with Traits := (vpInsts m traits[k].Traits).2.1 }, some msg),
-              traits.set k { traits[k] with Traits := (vpInsts m traits[k].Traits).2.1 }, (vpInsts m traits[k].Traits).1))
-        else ForInStep.yield (none, traits, m))) :
-    forIn (List.range' 0 gs.length) ((none, gs, m) : OuterSt) body = pure (
-      ((if (vpDescs m gs).2.2 then none else some ((vpDescs m gs).1, some msg)), (vpDescs m gs).1, (vpDescs m gs).2.1)) := by
-  have := vp_outer body msg h gs [] m
+          (if (vpInsts traits[k].«Type» m tm traits[k].Traits).2.2.2 then
+            ForInStep.yield (none, traits.set k { traits[k] with Traits := (vpInsts traits[k].«Type» m tm traits[k].Traits).2.2.1 },
+              (vpInsts traits[k].«Type» m tm traits[k].Traits).1, (vpInsts traits[k].«Type» m tm traits[k].Traits).2.1)
+          else ForInStep.done (some (traits.set k { traits[k] with Traits := (vpInsts traits[k].«Type» m tm traits[k].Traits).2.2.1 }, some msg),
+              traits.set k { traits[k] with Traits := (vpInsts traits[k].«Type» m tm traits[k].Traits).2.2.1 },
+              (vpInsts traits[k].«Type» m tm traits[k].Traits).1, (vpInsts traits[k].«Type» m tm traits[k].Traits).2.1))
+        else ForInStep.yield (none, traits, m, tm))) :
+    forIn (List.range' 0 gs.length) ((none, gs, m, tm) : OuterSt) body = pure (
+      ((if (vpDescs m tm gs).2.2.2 then none else some ((vpDescs m tm gs).1, some msg)), (vpDescs m tm gs).1,
+        (vpDescs m tm gs).2.1, (vpDescs m tm gs).2.2.1)) := by
+  have := vp_outer body msg h gs [] m tm
   simpa using this
 
 theorem vp_inner0 (body : Nat → InnerSt → Go.M (ForInStep InnerSt)) (msg : String) (k3 : Nat)
-    (m : SMap) (traits : List GTraitDesc) (tr : GTraitDesc) (hk : k3 < traits.length) (hinv : traits[k3]? = some tr)
-    (h : ∀ (i : Nat) (traits : List GTraitDesc) (m : SMap) (tr : GTraitDesc) (hi : i < tr.Traits.length),
-      k3 < traits.length → traits[k3]? = some tr → body i (none, traits, m, tr) = pure (match vpStep m tr.Traits[i] with
-        | none => ForInStep.done (some (traits, some msg), traits, m, tr)
-        | some (m', x') => ForInStep.yield (none, traits.set k3 { tr with Traits := tr.Traits.set i x' }, m',
+    (m : SMap) (tm : TMap) (traits : List GTraitDesc) (tr : GTraitDesc) (hk : k3 < traits.length) (hinv : traits[k3]? = some tr)
+    (h : ∀ (i : Nat) (traits : List GTraitDesc) (m : SMap) (tm : TMap) (tr : GTraitDesc) (hi : i < tr.Traits.length),
+      k3 < traits.length → traits[k3]? = some tr → body i (none, traits, m, tm, tr) = pure (match vpStep tr.«Type» m tm tr.Traits[i] with
+        | none => ForInStep.done (some (traits, some msg), traits, m, tm, tr)
+        | some (m', tm', x') => ForInStep.yield (none, traits.set k3 { tr with Traits := tr.Traits.set i x' }, m', tm',
             { tr with Traits := tr.Traits.set i x' }))) :
-    forIn (List.range' 0 tr.Traits.length) ((none, traits, m, tr) : InnerSt) body = pure (
-      ((if (vpInsts m tr.Traits).2.2 then none else some (traits.set k3 { tr with Traits := (vpInsts m tr.Traits).2.1 }, some msg)),
-        traits.set k3 { tr with Traits := (vpInsts m tr.Traits).2.1 }, (vpInsts m tr.Traits).1,
-        { tr with Traits := (vpInsts m tr.Traits).2.1 })) := by
-  have := vp_inner body msg k3 h tr.Traits [] m traits tr hk (by simp) hinv
+    forIn (List.range' 0 tr.Traits.length) ((none, traits, m, tm, tr) : InnerSt) body = pure (
+      ((if (vpInsts tr.«Type» m tm tr.Traits).2.2.2 then none
+          else some (traits.set k3 { tr with Traits := (vpInsts tr.«Type» m tm tr.Traits).2.2.1 }, some msg)),
+        traits.set k3 { tr with Traits := (vpInsts tr.«Type» m tm tr.Traits).2.2.1 }, (vpInsts tr.«Type» m tm tr.Traits).1,
+        (vpInsts tr.«Type» m tm tr.Traits).2.1, { tr with Traits := (vpInsts tr.«Type» m tm tr.Traits).2.2.1 })) := by
+  have := vp_inner body msg k3 h tr.Traits [] m tm traits tr hk (by simp) hinv
   simpa using this
 
 /-- `validateParsableTraits`, for every list of descriptors: no panic; the descriptors come back as `vpDescs`
 leaves them (marks on repeated Parse keys); the error is returned exactly when `vpDescs` says so -/
 theorem go_validateParsable_closed (e : String) (gs : List GTraitDesc) :
-    validateParsableTraits e gs = pure ((vpDescs [] gs).1,
-      if (vpDescs [] gs).2.2 then none else some validateParsableTraits_err1) := by
+    validateParsableTraits e gs = pure ((vpDescs [] [] gs).1,
+      if (vpDescs [] [] gs).2.2.2 then none else some validateParsableTraits_err1) := by
   unfold validateParsableTraits
   simp only []
-  rw [vp_outer0 _ validateParsableTraits_err1 gs [] ?h]
-  · by_cases hok : (vpDescs [] gs).2.2 = true <;> simp [hok]
+  rw [vp_outer0 _ validateParsableTraits_err1 gs [] [] ?h]
+  · by_cases hok : (vpDescs [] [] gs).2.2.2 = true <;> simp [hok]
   case h =>
-    intro k traits m hk
+    intro k traits m tm hk
     simp only [listGet_lt _ _ hk, pure_bind]
     by_cases hp : traits[k].Parsable = true
     · rw [if_pos hp, if_pos hp]
-      rw [vp_inner0 _ validateParsableTraits_err1 k m traits traits[k] hk (by simp [hk]) ?h2]
-      · by_cases hok : (vpInsts m traits[k].Traits).2.2 = true <;> simp [hok]
+      rw [vp_inner0 _ validateParsableTraits_err1 k m tm traits traits[k] hk (by simp [hk]) ?h2]
+      · by_cases hok : (vpInsts traits[k].«Type» m tm traits[k].Traits).2.2.2 = true <;> simp [hok]
       case h2 =>
-        intro i traits' m' tr hi hk' hinv'
+        intro i traits' m' tm' tr hi hk' hinv'
         simp only [listGet_lt _ _ hi, pure_bind, vpStep]
         have e1 : ({ tr with Traits := tr.Traits } : GTraitDesc) = tr := rfl
+        have e2 : tr.Traits.set i tr.Traits[i] = tr.Traits := by simp
         cases hg : Go.kvGet m' tr.Traits[i].value with
-        | none => simp [hg, e1, set_self _ _ _ hinv']
+        | none => simp [hg, e1, e2, set_self _ _ _ hinv', tmGet]
         | some o =>
           by_cases hne : o = tr.Traits[i].OwningValue.Name
-          · simp [hg, hne, Go.listSet, hi, hk']
+          · simp only [hg, Option.isSome_some, if_true, Option.getD_some, hne, bne_self_eq_false, Bool.false_eq_true, if_false]
+            rw [vp_mark _ k i ?h3 _ traits' tr hi hk']
+            · have hmk : mkT tr i = { tr with Traits := tr.Traits.set i (markOf tr.Traits[i]) } := by
+                simp [mkT, List.getD_eq_getElem?_getD, hi]
+              by_cases hany : (tmGet tm' tr.Traits[i].value).any (sameDefault tr.«Type») = true
+              · simp only [tmGet] at hany
+                simp [hany, hmk, tmGet, pure_bind]
+              · simp only [tmGet] at hany
+                simp [hany, tmGet, pure_bind, e1, e2, set_self _ _ _ hinv']
+            case h3 =>
+              intro seen traits2 tr2 hi2 hk2
+              have hmk2 : mkT tr2 i = { tr2 with Traits := tr2.Traits.set i (markOf tr2.Traits[i]) } := by
+                simp [mkT, List.getD_eq_getElem?_getD, hi2]
+              by_cases hc : sameDefault tr2.«Type» seen = true
+              · have hc' : (seen.defaultTypeId == tr2.«Type».defaultTypeId) = true := hc
+                simp [hc, hc', listGet_lt _ _ hi2, Go.listSet, hi2, hk2, hmk2, markOf]
+              · have hc' : (seen.defaultTypeId == tr2.«Type».defaultTypeId) = false := by
+                  simpa [sameDefault] using hc
+                simp [hc, hc']
           · simp [hg, hne]
     · rw [if_neg hp, if_neg hp]
-
 
 /-! ## the closed form and the model's `parsableUnique` -/
 
@@ -237,37 +309,37 @@ theorem scan_append (m : SMap) (a b : List (String × String)) :
       · simp [hg, hne]
       · simp only [hg, hne, if_false, ih, Bool.false_eq_true]
 
-theorem vpInsts_scan (m : SMap) (xs : List GTraitInstance) :
-    (vpInsts m xs).1 = (scan m (pairsOfInsts xs)).1 ∧ (vpInsts m xs).2.2 = (scan m (pairsOfInsts xs)).2 := by
-  induction xs generalizing m with
+theorem vpInsts_scan (ty : GType) (m : SMap) (tm : TMap) (xs : List GTraitInstance) :
+    (vpInsts ty m tm xs).1 = (scan m (pairsOfInsts xs)).1 ∧ (vpInsts ty m tm xs).2.2.2 = (scan m (pairsOfInsts xs)).2 := by
+  induction xs generalizing m tm with
   | nil => simp [vpInsts, scan, pairsOfInsts]
   | cons x xs ih =>
     simp only [vpInsts, pairsOfInsts, List.map_cons, scan, vpStep]
     cases hg : Go.kvGet m x.value with
-    | none => simpa [pairsOfInsts] using ih _
+    | none => simpa [pairsOfInsts] using ih _ _
     | some o =>
       by_cases hne : (o != x.OwningValue.Name) = true
       · simp [hne]
-      · simpa [hne, pairsOfInsts] using ih _
+      · simpa [hne, pairsOfInsts] using ih _ _
 
-theorem vpDescs_scan (m : SMap) (gs : List GTraitDesc) :
-    (vpDescs m gs).2.1 = (scan m (pairsOf gs)).1 ∧ (vpDescs m gs).2.2 = (scan m (pairsOf gs)).2 := by
-  induction gs generalizing m with
+theorem vpDescs_scan (m : SMap) (tm : TMap) (gs : List GTraitDesc) :
+    (vpDescs m tm gs).2.1 = (scan m (pairsOf gs)).1 ∧ (vpDescs m tm gs).2.2.2 = (scan m (pairsOf gs)).2 := by
+  induction gs generalizing m tm with
   | nil => simp [vpDescs, scan, pairsOf]
   | cons t ts ih =>
     by_cases hp : t.Parsable = true
     · have hpo : pairsOf (t :: ts) = pairsOfInsts t.Traits ++ pairsOf ts := by simp [pairsOf, hp]
       rw [hpo, scan_append]
-      obtain ⟨h1, h2⟩ := vpInsts_scan m t.Traits
-      by_cases hok : (vpInsts m t.Traits).2.2 = true
-      · have := ih (vpInsts m t.Traits).1
+      obtain ⟨h1, h2⟩ := vpInsts_scan t.«Type» m tm t.Traits
+      by_cases hok : (vpInsts t.«Type» m tm t.Traits).2.2.2 = true
+      · have := ih (vpInsts t.«Type» m tm t.Traits).1 (vpInsts t.«Type» m tm t.Traits).2.1
         simp only [vpDescs, hp, hok, if_true, ← h2, ← h1]
         exact this
       · simp only [vpDescs, hp, hok, if_true, ← h2, ← h1]
         simp
     · have hpo : pairsOf (t :: ts) = pairsOf ts := by simp [pairsOf, hp]
       rw [hpo]
-      simpa [vpDescs, hp] using ih m
+      simpa [vpDescs, hp] using ih m tm
 
 theorem kvGet_kvSet (m : SMap) (k v k' : String) :
     Go.kvGet (Go.kvSet m k v) k' = if k = k' then some v else Go.kvGet m k' := by
@@ -356,16 +428,16 @@ theorem scan_ok_iff (m : SMap) (ps : List (String × String)) :
 different enum values -/
 theorem go_validateParsable_consistent (e : String) (gs : List GTraitDesc) :
     ∃ gs', validateParsableTraits e gs = pure (gs', if decide (Consistent (pairsOf gs)) then none else some validateParsableTraits_err1) := by
-  refine ⟨(vpDescs [] gs).1, ?_⟩
+  refine ⟨(vpDescs [] [] gs).1, ?_⟩
   rw [go_validateParsable_closed]
   have h := (scan_ok_iff [] (pairsOf gs))
-  rw [← (vpDescs_scan [] gs).2] at h
-  have h' : (vpDescs [] gs).2.2 = true ↔ Consistent (pairsOf gs) := by
+  rw [← (vpDescs_scan [] [] gs).2] at h
+  have h' : (vpDescs [] [] gs).2.2.2 = true ↔ Consistent (pairsOf gs) := by
     rw [h]; simp [Go.kvGet]
   by_cases hc : Consistent (pairsOf gs)
   · simp [hc, h'.mpr hc]
-  · have : (vpDescs [] gs).2.2 = false := by
-      cases hv : (vpDescs [] gs).2.2
+  · have : (vpDescs [] [] gs).2.2.2 = false := by
+      cases hv : (vpDescs [] [] gs).2.2.2
       · rfl
       · exact absurd (h'.mp hv) hc
     simp [hc, this]
@@ -412,34 +484,38 @@ theorem modelRows_pairs {first : Genum.Value} {ts : List Genum.TraitDesc} {gs : 
     · simp only [hp, if_false, ih, Bool.false_eq_true]
 
 theorem vpInsts_rel {first : Genum.Value} {ty : String} {rows : List TraitRow} {xs : List GTraitInstance}
-    (h : All₂ (RowRel first ty) rows xs) (m : SMap) : All₂ (RowRel first ty) rows (vpInsts m xs).2.1 := by
-  induction h generalizing m with
+    (h : All₂ (RowRel first ty) rows xs) (gty : GType) (m : SMap) (tm : TMap) :
+    All₂ (RowRel first ty) rows (vpInsts gty m tm xs).2.2.1 := by
+  induction h generalizing m tm with
   | nil => exact .nil
   | @cons r x rows xs hab hrest ih =>
     unfold vpInsts vpStep
     rcases Option.eq_none_or_eq_some (Go.kvGet m x.value) with hg | ⟨o, hg⟩
     · simp only [hg]
-      exact .cons hab (ih _)
+      exact .cons hab (ih _ _)
     · by_cases hne : (o != x.OwningValue.Name) = true
       · simp only [hg, hne, if_true]
         exact .cons hab hrest
       · simp only [hg, hne, if_false, Bool.false_eq_true]
-        exact .cons ⟨hab.owner, hab.text⟩ (ih _)
+        refine .cons ?_ (ih _ _)
+        split
+        · exact ⟨hab.owner, hab.text⟩
+        · exact hab
 
 theorem vpDescs_rel {first : Genum.Value} {ts : List Genum.TraitDesc} {gs : List GTraitDesc}
-    (h : All₂ (DescRel first) ts gs) (m : SMap) : All₂ (DescRel first) ts (vpDescs m gs).1 := by
-  induction h generalizing m with
+    (h : All₂ (DescRel first) ts gs) (m : SMap) (tm : TMap) : All₂ (DescRel first) ts (vpDescs m tm gs).1 := by
+  induction h generalizing m tm with
   | nil => exact .nil
   | @cons t g ts gs hab hrest ih =>
     unfold vpDescs
     by_cases hp : g.Parsable = true
-    · by_cases hok : (vpInsts m g.Traits).2.2 = true
+    · by_cases hok : (vpInsts g.«Type» m tm g.Traits).2.2.2 = true
       · rw [if_pos hp, if_pos hok]
-        exact .cons ⟨hab.name, hab.parsable, hab.fam, vpInsts_rel hab.rows m⟩ (ih _)
+        exact .cons ⟨hab.name, hab.parsable, hab.fam, vpInsts_rel hab.rows _ m tm⟩ (ih _ _)
       · rw [if_pos hp, if_neg hok]
-        exact .cons ⟨hab.name, hab.parsable, hab.fam, vpInsts_rel hab.rows m⟩ hrest
+        exact .cons ⟨hab.name, hab.parsable, hab.fam, vpInsts_rel hab.rows _ m tm⟩ hrest
     · rw [if_neg hp]
-      exact .cons hab (ih _)
+      exact .cons hab (ih _ _)
 
 /-- `validateParsableTraits` on the code's descriptors of the model's traits: no panic; it returns its error exactly
 when the model's `parsableUnique` fails; the descriptors it leaves behind are still the model's (it only marks
@@ -449,9 +525,9 @@ theorem go_validateParsable_eq (first : Genum.Value) (ts : List Genum.TraitDesc)
     ∃ gs', validateParsableTraits e gs
         = pure (gs', if parsableUnique first ts then none else some validateParsableTraits_err1) ∧
       All₂ (DescRel first) ts gs' := by
-  refine ⟨(vpDescs [] gs).1, ?_, vpDescs_rel h []⟩
+  refine ⟨(vpDescs [] [] gs).1, ?_, vpDescs_rel h [] []⟩
   obtain ⟨gs', hgs⟩ := go_validateParsable_consistent e gs
-  have h1 : gs' = (vpDescs [] gs).1 := by
+  have h1 : gs' = (vpDescs [] [] gs).1 := by
     have := go_validateParsable_closed e gs
     rw [this] at hgs
     exact (congrArg Prod.fst (Except.ok.inj hgs)).symm
